@@ -32,7 +32,7 @@ type BoolFn struct {
 // BoolRow is one line of the truth table.
 type BoolRow struct {
 	Assign  map[string]bool
-	Rets    []int // per result: 1 true, 0 false, -1 not a boolean / unknown
+	Rets    []int       // per result: 1 true, 0 false, -1 not a boolean / unknown
 	RetVals []ssa.Value // per result: the SSA value returned on this path (φ-nodes resolved along the path taken)
 	Events  map[string]bool
 	Unknown string // non-empty: the execution met something the evaluator cannot decide (the row is undecided)
